@@ -41,7 +41,7 @@ def edit_cause(shape: Shape, hist: List[Dict[str, Any]], i: int) -> str:
         (f, idx) = e["what"]
         s = shape.stmts[f][idx - 1]
         return "arg|a=%s,lay=%s" % (s["a"], s["lay"])
-    if k in ("body", "cos"):
+    if k in ("body", "cos", "default"):
         return "%s|%s" % (k, role(shape, e["what"]))
     return k
 
